@@ -1,4 +1,4 @@
-// factgen — regenerates lean/GIV/Gen/*.lean from /repo's working tree.
+// Package fact — shared part of factgen, which regenerates lean/GIV/Gen/*.lean from /repo's working tree.
 //
 // For every modelled decision point it extracts, by function name and syntactic shape
 // (never by line number), the constants, tables and the shape of the deciding expression,
@@ -6,7 +6,7 @@
 // are re-checked against what the source says now.  An anchor that cannot be located is
 // reported as "lost": the last pinned value is emitted and the check falls back on the
 // correspondence run for that fact.
-package main
+package fact
 
 import (
 	"bytes"
@@ -19,7 +19,6 @@ import (
 	"go/token"
 	"os"
 	"path/filepath"
-	"sort"
 	"strconv"
 	"strings"
 )
@@ -35,24 +34,19 @@ type GroupReport struct {
 	Anchors map[string]string `json:"anchors"` // name -> "found: <value>" | "lost: <why>"
 }
 
-type gen struct {
-	repo   string
-	fset   *token.FileSet
+type Gen struct {
+	Repo   string
+	Fset   *token.FileSet
 	files  map[string]*ast.File
-	report *GroupReport
-	buf    bytes.Buffer
+	Report *GroupReport
+	Buf    bytes.Buffer
 }
 
-type groupFn func(g *gen)
-
-var groups = map[string]groupFn{}
-var groupOut = map[string]string{} // group -> Lean module base name (GIV/Gen/<name>.lean)
-
-func (g *gen) parse(rel string) *ast.File {
+func (g *Gen) Parse(rel string) *ast.File {
 	if f, ok := g.files[rel]; ok {
 		return f
 	}
-	f, err := parser.ParseFile(g.fset, filepath.Join(g.repo, rel), nil, parser.ParseComments)
+	f, err := parser.ParseFile(g.Fset, filepath.Join(g.Repo, rel), nil, parser.ParseComments)
 	if err != nil {
 		g.files[rel] = nil
 		return nil
@@ -61,8 +55,8 @@ func (g *gen) parse(rel string) *ast.File {
 	return f
 }
 
-func (g *gen) funcDecl(rel, name string) *ast.FuncDecl {
-	f := g.parse(rel)
+func (g *Gen) FuncDecl(rel, name string) *ast.FuncDecl {
+	f := g.Parse(rel)
 	if f == nil {
 		return nil
 	}
@@ -74,8 +68,8 @@ func (g *gen) funcDecl(rel, name string) *ast.FuncDecl {
 	return nil
 }
 
-func (g *gen) method(rel, recv, name string) *ast.FuncDecl {
-	f := g.parse(rel)
+func (g *Gen) Method(rel, recv, name string) *ast.FuncDecl {
+	f := g.Parse(rel)
 	if f == nil {
 		return nil
 	}
@@ -96,25 +90,25 @@ func (g *gen) method(rel, recv, name string) *ast.FuncDecl {
 }
 
 // src prints a node and removes all white space: the "shape" used for matching.
-func (g *gen) src(n ast.Node) string {
+func (g *Gen) Src(n ast.Node) string {
 	if n == nil || (fmt.Sprintf("%v", n) == "<nil>") {
 		return ""
 	}
 	var b bytes.Buffer
-	printer.Fprint(&b, g.fset, n)
+	printer.Fprint(&b, g.Fset, n)
 	return strings.Join(strings.Fields(b.String()), "")
 }
 
 // pretty prints a node on one line (for comments in the generated file).
-func (g *gen) pretty(n ast.Node) string {
+func (g *Gen) Pretty(n ast.Node) string {
 	var b bytes.Buffer
-	printer.Fprint(&b, g.fset, n)
+	printer.Fprint(&b, g.Fset, n)
 	return strings.Join(strings.Fields(b.String()), " ")
 }
 
 // topLevelValue finds `name = <expr>` in a var or const declaration at file level.
-func (g *gen) topLevelValue(rel, name string) ast.Expr {
-	f := g.parse(rel)
+func (g *Gen) TopLevelValue(rel, name string) ast.Expr {
+	f := g.Parse(rel)
 	if f == nil {
 		return nil
 	}
@@ -139,7 +133,7 @@ func (g *gen) topLevelValue(rel, name string) ast.Expr {
 }
 
 // stringLit extracts the string from "..." / `...` or from []byte("...") / string("...").
-func stringLit(e ast.Expr) (string, bool) {
+func StringLit(e ast.Expr) (string, bool) {
 	switch v := e.(type) {
 	case *ast.BasicLit:
 		if v.Kind == token.STRING {
@@ -148,15 +142,15 @@ func stringLit(e ast.Expr) (string, bool) {
 		}
 	case *ast.CallExpr:
 		if len(v.Args) == 1 {
-			return stringLit(v.Args[0])
+			return StringLit(v.Args[0])
 		}
 	case *ast.ParenExpr:
-		return stringLit(v.X)
+		return StringLit(v.X)
 	}
 	return "", false
 }
 
-func leanBytes(s string) string {
+func LeanBytes(s string) string {
 	parts := make([]string, len(s))
 	for i := 0; i < len(s); i++ {
 		parts[i] = strconv.Itoa(int(s[i]))
@@ -164,7 +158,7 @@ func leanBytes(s string) string {
 	return "[" + strings.Join(parts, ", ") + "]"
 }
 
-func leanStrList(ss []string) string {
+func LeanStrList(ss []string) string {
 	q := make([]string, len(ss))
 	for i, s := range ss {
 		q[i] = strconv.Quote(s)
@@ -172,72 +166,63 @@ func leanStrList(ss []string) string {
 	return "[" + strings.Join(q, ", ") + "]"
 }
 
-func (g *gen) found(anchor, val string) { g.report.Anchors[anchor] = "found: " + val }
-func (g *gen) lost(anchor, why string)  { g.report.Anchors[anchor] = "lost: " + why }
+func (g *Gen) Found(anchor, val string) { g.Report.Anchors[anchor] = "found: " + val }
+func (g *Gen) Lost(anchor, why string)  { g.Report.Anchors[anchor] = "lost: " + why }
 
-func (g *gen) emit(format string, a ...any) { fmt.Fprintf(&g.buf, format, a...) }
+func (g *Gen) Emit(format string, a ...any) { fmt.Fprintf(&g.Buf, format, a...) }
 
 // emitBool emits `def name : Bool := v` where v is decided by `decide`, which returns
 // (value, ok); on !ok the pinned value is used and the anchor reported lost.
-func (g *gen) emitBool(name, doc string, pinned bool, decide func() (bool, bool, string)) {
+func (g *Gen) EmitBool(name, doc string, pinned bool, decide func() (bool, bool, string)) {
 	v, ok, why := decide()
 	if !ok {
 		v = pinned
-		g.lost(name, why)
+		g.Lost(name, why)
 	} else {
-		g.found(name, strconv.FormatBool(v))
+		g.Found(name, strconv.FormatBool(v))
 	}
-	g.emit("/-- %s -/\ndef %s : Bool := %v\n", doc, name, v)
+	g.Emit("/-- %s -/\ndef %s : Bool := %v\n", doc, name, v)
 }
 
-func (g *gen) emitBytesVar(rel, goName, leanName, pinned string) {
-	v := g.topLevelValue(rel, goName)
+func (g *Gen) EmitBytesVar(rel, goName, leanName, pinned string) {
+	v := g.TopLevelValue(rel, goName)
 	s, ok := "", false
 	if v != nil {
-		s, ok = stringLit(v)
+		s, ok = StringLit(v)
 	}
 	if !ok {
 		s = pinned
-		g.lost(leanName, "no string value for "+goName+" in "+rel)
+		g.Lost(leanName, "no string value for "+goName+" in "+rel)
 	} else {
-		g.found(leanName, strconv.Quote(s))
+		g.Found(leanName, strconv.Quote(s))
 	}
-	g.emit("def %s : GIV.Bytes := %s\n", leanName, leanBytes(s))
+	g.Emit("def %s : GIV.Bytes := %s\n", leanName, LeanBytes(s))
 }
 
-func main() {
-	repo := flag.String("repo", "/repo", "repository root")
-	out := flag.String("out", "/verif/lean/GIV/Gen", "output directory")
-	only := flag.String("only", "", "comma separated groups (default all)")
-	flag.Parse()
+// Main implements `<group> factgen -repo R -out DIR`: runs fn and writes GIV/Gen/<module>.lean
+// (only when its content changed), then prints the report as JSON.
+func Main(args []string, group, module string, fn func(g *Gen)) {
+	fs := flag.NewFlagSet("factgen", flag.ExitOnError)
+	repo := fs.String("repo", "/repo", "repository root")
+	out := fs.String("out", "/verif/lean/GIV/Gen", "output directory")
+	fs.Parse(args)
 	rep := &Report{Groups: map[string]*GroupReport{}}
-	var names []string
-	for k := range groups {
-		names = append(names, k)
-	}
-	sort.Strings(names)
-	for _, name := range names {
-		if *only != "" && !strings.Contains(","+*only+",", ","+name+",") {
-			continue
+	g := &Gen{Repo: *repo, Fset: token.NewFileSet(), files: map[string]*ast.File{}}
+	g.Report = &GroupReport{Anchors: map[string]string{}}
+	g.Emit("/- GENERATED by factgen from /repo's working tree — do not edit; regenerated on every check run. -/\nimport GIV.Basic\nnamespace GIV.Gen.%s\n", module)
+	fn(g)
+	g.Emit("end GIV.Gen.%s\n", module)
+	path := filepath.Join(*out, module+".lean")
+	g.Report.File = path
+	old, _ := os.ReadFile(path)
+	if !bytes.Equal(old, g.Buf.Bytes()) {
+		g.Report.Changed = true
+		if err := os.WriteFile(path, g.Buf.Bytes(), 0o666); err != nil {
+			fmt.Fprintln(os.Stderr, err)
+			os.Exit(2)
 		}
-		g := &gen{repo: *repo, fset: token.NewFileSet(), files: map[string]*ast.File{}}
-		g.report = &GroupReport{Anchors: map[string]string{}}
-		mod := groupOut[name]
-		g.emit("/- GENERATED by factgen from /repo's working tree — do not edit; regenerated on every check run. -/\nimport GIV.Basic\nnamespace GIV.Gen.%s\n", mod)
-		groups[name](g)
-		g.emit("end GIV.Gen.%s\n", mod)
-		path := filepath.Join(*out, mod+".lean")
-		g.report.File = path
-		old, _ := os.ReadFile(path)
-		if !bytes.Equal(old, g.buf.Bytes()) {
-			g.report.Changed = true
-			if err := os.WriteFile(path, g.buf.Bytes(), 0o666); err != nil {
-				fmt.Fprintln(os.Stderr, err)
-				os.Exit(2)
-			}
-		}
-		rep.Groups[name] = g.report
 	}
+	rep.Groups[group] = g.Report
 	data, _ := json.MarshalIndent(rep, "", " ")
 	os.Stdout.Write(data)
 	fmt.Println()
